@@ -89,3 +89,15 @@ Theorem C09_source_journal_layout :
   forall name x, In (name, x) model_journal_reads -> go_field go_journal_fields name = Some x.
 Proof. exact journal_layout. Qed.
 Print Assumptions C09_source_journal_layout.
+
+(* ... and validJournal's own tests ARE the model's valid_journal: the 28 bytes read up front, the sanity test on the (signed)
+   sector size, the rest of the first sector that must be readable, each translated from db/journal.go on every build *)
+Theorem C09_source_journal_tests : forall j,
+  valid_journal j =
+  if (len j <? go_journal_header_bytes)%Z then false
+  else if negb (forallb (fun p => (b2z (fst p) =? snd p)%Z) (combine (take 8 j) journal_magic)) then false
+  else let ss := twos 32 (fld j 20 4) in
+       if go_journal_sector_refused ss then false
+       else (go_journal_header_bytes + go_journal_rest_bytes ss go_journal_header_bytes <=? len j)%Z.
+Proof. exact valid_journal_source. Qed.
+Print Assumptions C09_source_journal_tests.
